@@ -35,7 +35,9 @@ Deviations == { "NoAliveCheckOnIdle",    \* the no-entry path hands out an idle 
                 "OverflowNotClosed",     \* a retired connection that does not fit the idle queue is dropped open
                 "WrongAddress",          \* idle connection of another address handed out
                 "NoMarkDead",            \* ErrShutdown does not mark the connection
-                "ReplaceNoClose" }       \* (reserved)
+                "AppendIdleNoCheck",     \* the append path hands out an idle connection without looking at its dead mark
+                "RoundRobinNoCheck",     \* the round-robin path hands out a connection carrying the dead mark
+                "ReplaceKeepsDead" }    \* a dead connection is re-dialed but the dead one is handed out (the fresh one is dropped)
 
 ASSUME Dev \subseteq Deviations
 DevChoice(d) == IF d \in Dev THEN BOOLEAN ELSE {FALSE}
@@ -115,11 +117,11 @@ HandOut(k, a, c) ==
 
 \* ---- getConn, path 1: an entry exists and has room: take an idle connection (if its dead mark
 \*      is not set) or dial; append.
-GetAppendIdle(k, a) ==
+GetAppendIdle(k, a, dNoCheck) ==
     /\ cst[k] = "idle" /\ ncalls[k] < MaxCalls /\ ~closed
     /\ conns[a] # <<>> /\ Len(conns[a]) < MaxConns /\ idle[a] # <<>>
     /\ LET c == Head(idle[a]) IN
-       /\ alive[c]
+       /\ (alive[c] \/ dNoCheck)
        /\ idle' = [idle EXCEPT ![a] = Tail(@)]
        /\ last' = [last EXCEPT ![c] = tnow]        \* lastTime = t.now (the last pass, not the wall clock)
        /\ conns' = [conns EXCEPT ![a] = Append(@, c)]
@@ -127,16 +129,17 @@ GetAppendIdle(k, a) ==
     /\ UNCHANGED <<cursor, addrOf, alive, open, broken, busy, used, up, clock, tnow, closed, nkills, failsSince>>
 
 \* the dequeued idle connection carries the dead mark: it is dropped and a new one is dialed
-GetAppendIdleDead(k, a) ==
+GetAppendIdleDead(k, a, dKeepDead) ==
     /\ cst[k] = "idle" /\ ncalls[k] < MaxCalls /\ ~closed
     /\ conns[a] # <<>> /\ Len(conns[a]) < MaxConns /\ idle[a] # <<>>
     /\ ~alive[Head(idle[a])]
     /\ idle' = [idle EXCEPT ![a] = Tail(@)]
     /\ IF CanDial(a)
-         THEN LET c == Fresh IN
+         THEN LET c == Fresh
+                  h == IF dKeepDead THEN Head(idle[a]) ELSE c IN     \* deviation: the freshly dialed one is dropped
               /\ DialInto(c, a)
-              /\ conns' = [conns EXCEPT ![a] = Append(@, c)]
-              /\ HandOut(k, a, c)
+              /\ conns' = [conns EXCEPT ![a] = Append(@, h)]
+              /\ HandOut(k, a, h)
               /\ UNCHANGED failsSince
          ELSE /\ UNCHANGED <<addrOf, alive, open, last, used, conns, cst, cconn, caddr, failsSince>>
               /\ ncalls' = [ncalls EXCEPT ![k] = @ + 1]     \* the call fails with ErrDial
@@ -157,13 +160,13 @@ GetAppendDial(k, a, dNoLimit) ==
 \* ---- path 2: the entry is full: round robin; a connection carrying the dead mark is replaced.
 NextCursor(a) == IF cursor[a] + 1 > Len(conns[a]) - 1 THEN 0 ELSE cursor[a] + 1
 
-GetRoundRobin(k, a) ==
+GetRoundRobin(k, a, dNoCheck) ==
     /\ cst[k] = "idle" /\ ncalls[k] < MaxCalls /\ ~closed
     /\ conns[a] # <<>> /\ Len(conns[a]) >= MaxConns
     /\ LET i == NextCursor(a)
            c == conns[a][i + 1] IN
        /\ cursor' = [cursor EXCEPT ![a] = i]
-       /\ IF alive[c]
+       /\ IF alive[c] \/ dNoCheck
             THEN /\ HandOut(k, a, c)
                  /\ UNCHANGED <<conns, addrOf, alive, open, last, used>>
             ELSE IF CanDial(a)
@@ -221,19 +224,21 @@ GetNoEntryDial(k, a) ==
 \* The caller's call on the connection it was handed.
 
 \* send(): the call registers (NumCalls > 0 from here) unless the connection was closed meanwhile.
-Register(k) ==
+Register(k, dNoMark) ==
     /\ cst[k] = "got"
     /\ LET c == cconn[k] IN
-       IF open[c]
+       IF open[c] /\ ~broken[c]
          THEN /\ busy' = [busy EXCEPT ![c] = @ + 1]
               /\ cst' = [cst EXCEPT ![k] = "inflight"]
               /\ UNCHANGED <<alive, open, failsSince, cconn>>
-         ELSE \* refused at once with ErrShutdown: the caller marks the connection dead
+         ELSE \* refused at once with ErrShutdown (closed, or its reader saw the peer go): the caller marks
+              \* the connection dead and closes it
               /\ cst' = [cst EXCEPT ![k] = "idle"]
-              /\ alive' = [alive EXCEPT ![c] = FALSE]
+              /\ alive' = IF dNoMark THEN alive ELSE [alive EXCEPT ![c] = FALSE]
+              /\ open' = IF dNoMark THEN open ELSE [open EXCEPT ![c] = FALSE]
               /\ failsSince' = [failsSince EXCEPT ![k] = @ + 1]
               /\ cconn' = [cconn EXCEPT ![k] = NoConn]
-              /\ UNCHANGED <<busy, open>>
+              /\ UNCHANGED busy
     /\ UNCHANGED <<conns, cursor, idle, addrOf, broken, last, used, up, clock, tnow, closed, caddr, ncalls, nkills>>
 
 \* the call returns: success if the connection is healthy, ErrShutdown if it is broken or was
@@ -336,13 +341,24 @@ Advance ==
     /\ UNCHANGED <<conns, cursor, idle, addrOf, alive, open, broken, last, busy, used, up, tnow, closed,
                    cst, cconn, caddr, ncalls, nkills, failsSince>>
 
+\* The server process dies: every connection to it ends (its client's reader sees EOF). Calls in flight
+\* on those connections fail with ErrShutdown at once (their callers mark the connection dead and close
+\* it); pooled connections without calls stay in the pool, broken, until a call is refused on them.
 Kill(a) ==
     /\ up[a] /\ nkills < MaxKills
     /\ nkills' = nkills + 1
     /\ up' = [up EXCEPT ![a] = FALSE]
-    /\ broken' = [c \in ConnIds |-> broken[c] \/ (addrOf[c] = a /\ open[c])]
-    /\ UNCHANGED <<conns, cursor, idle, addrOf, alive, open, last, busy, used, clock, tnow, closed,
-                   cst, cconn, caddr, ncalls, failsSince>>
+    /\ LET hit == {k \in Callers : cst[k] = "inflight" /\ addrOf[cconn[k]] = a}
+           hc == {cconn[k] : k \in hit} IN
+       /\ broken' = [c \in ConnIds |-> broken[c] \/ (addrOf[c] = a /\ open[c])]
+       /\ cst' = [k \in Callers |-> IF k \in hit THEN "idle" ELSE cst[k]]
+       /\ cconn' = [k \in Callers |-> IF k \in hit THEN NoConn ELSE cconn[k]]
+       /\ failsSince' = [k \in Callers |-> IF k \in hit THEN failsSince[k] + 1 ELSE failsSince[k]]
+       /\ busy' = [c \in ConnIds |-> IF c \in hc THEN 0 ELSE busy[c]]
+       /\ alive' = [c \in ConnIds |-> IF c \in hc THEN FALSE ELSE alive[c]]
+       /\ open' = [c \in ConnIds |-> IF c \in hc THEN FALSE ELSE open[c]]
+       /\ last' = [c \in ConnIds |-> IF c \in hc THEN tnow ELSE last[c]]
+    /\ UNCHANGED <<conns, cursor, idle, addrOf, used, clock, tnow, closed, caddr, ncalls>>
 
 Restart(a) ==
     /\ ~up[a]
@@ -352,15 +368,16 @@ Restart(a) ==
                    cst, cconn, caddr, ncalls, nkills>>
 
 GetConn(k, a) ==
-    \/ GetAppendIdle(k, a) \/ GetAppendIdleDead(k, a)
+    \/ \E d \in DevChoice("AppendIdleNoCheck") : GetAppendIdle(k, a, d)
+    \/ \E d \in DevChoice("ReplaceKeepsDead") : GetAppendIdleDead(k, a, d)
     \/ \E d \in DevChoice("DialNoLimit") : GetAppendDial(k, a, d)
-    \/ GetRoundRobin(k, a)
+    \/ \E d \in DevChoice("RoundRobinNoCheck") : GetRoundRobin(k, a, d)
     \/ \E d1 \in DevChoice("NoAliveCheckOnIdle") : \E d2 \in DevChoice("WrongAddress") : GetNoEntryIdle(k, a, d1, d2)
     \/ GetNoEntryIdleDead(k, a) \/ GetNoEntryDial(k, a)
 
 Next ==
     \/ \E k \in Callers : \E a \in Addrs : GetConn(k, a)
-    \/ \E k \in Callers : Register(k)
+    \/ \E k \in Callers : \E d \in DevChoice("NoMarkDead") : Register(k, d)
     \/ \E k \in Callers : \E d \in DevChoice("NoMarkDead") : Return(k, d)
     \/ \E d1 \in DevChoice("RetireBusy") : \E d2 \in DevChoice("EnqueueNoLimit") : \E d3 \in DevChoice("IdleCloseIgnoresBusy") : Tick(d1, d2, d3)
     \/ \E d1 \in DevChoice("CloseIdleBusy") : \E d2 \in DevChoice("IdleCloseIgnoresBusy") : CloseIdle(d1, d2)
@@ -398,7 +415,7 @@ RecoveryBound == \A k \in Callers : failsSince[k] <= MaxConns + MaxIdle + 1
 \* ---- C15
 \* housekeeping (tick, CloseIdleConnections) never closes a connection with calls in flight
 SpareBusy ==
-    [][\A c \in ConnIds : (open[c] /\ ~open'[c] /\ busy[c] > 0) => (closed' /\ ~closed) \/ (\E k \in Callers : cconn[k] = c /\ cst[k] = "inflight" /\ cst'[k] = "idle")]_vars
+    [][\A c \in ConnIds : (open[c] /\ ~open'[c] /\ busy[c] > 0) => (closed' /\ ~closed) \/ (\E k \in Callers : cconn[k] = c /\ cst[k] \in {"inflight", "got"} /\ cst'[k] = "idle")]_vars
 CloseClosesAll == closed => \A a \in Addrs : conns[a] = <<>> /\ idle[a] = <<>>
 
 ================================================================================
